@@ -749,6 +749,10 @@ func Walk(n Node, visit func(n Node) bool) {
 				}
 				stack = append(stack, n.X)
 			}
+		case *ParenExpr:
+			if visit(n) {
+				stack = append(stack, n.X)
+			}
 		case *BasicLit:
 			visit(n)
 		case *CallExpr:
